@@ -244,6 +244,12 @@ def scenario(ctx, servertype, commtimeout, poolsize, acts1, acts2, case):
         for s in squat:
             s.close()
         r = None
+        if not rd.loop_exc and servertype == "thread":
+            # the workers of the connections that just went away must come back before anything else is judged
+            if not rd.wait_for(lambda a: a["busy"] == pre["busy"]):
+                fails.append(("real:worker-stranded", "thread pool (real sockets): %r before the attack, %r after all hostile peers left"
+                              % (pre, rd.accounting())))
+                return fails
         if not rd.loop_exc:
             witness_round()
             # a new client afterwards
